@@ -4,7 +4,7 @@
 EXTENDS Formats, Json, FP
 CONSTANT ObsFile
 Obs == ndJsonDeserialize(ObsFile)
-P(r) == [fmt |-> r.fmt, bk |-> r.bk, sibling |-> r.sibling, ext |-> r.ext, rootErr |-> r.rootErr]
+P(r) == [fmt |-> r.fmt, bk |-> r.bk, sibling |-> r.sibling, ext |-> r.ext, rootErr |-> r.rootErr, how |-> r.how]
 Finger(r) ==
   LET p == P(r) IN
   IF r.gen = "panic" THEN {<<"C13", "generator-panic", r.why, r.id>>}
